@@ -3,7 +3,7 @@ import VrlModel.Conversion
 import VrlModel.C35
 
 /-!
-  Line-protocol handler for C35: `c35.parse`, `c35.convert`, `c35.lower`, `c35.white`, `o.c35`.
+  Line-protocol handler for C35: `c35.parse`, `c35.convert`, `c35.white`, `o.c35.lower`, `o.c35`, `o.c35.nopanic`.
   The third-party primitives of the model (`FloatText`, `Chrono`) are instantiated from the
   observations the harness made by calling core/chrono directly (see harness/src/c35.rs).
 -/
